@@ -257,13 +257,17 @@ func evalC05(c *Ctx, cs *Case) {
 			for ai, name := range []string{"WalkFromRoot", "WalkProgrammably(alias)"} {
 				rec := NewRowRec()
 				g := BuildRoot(root)
+				gbo, optsIntact := GuardOpts(bo)
 				o := Guard(func() error {
 					if ai == 0 {
-						return gtree.WalkFromRoot(g, rec.Callback, bo...)
+						return gtree.WalkFromRoot(g, rec.Callback, gbo...)
 					}
-					return gtree.WalkProgrammably(g, rec.Callback, bo...)
+					return gtree.WalkProgrammably(g, rec.Callback, gbo...)
 				})
 				rec.Seal(&o)
+				if !optsIntact() {
+					viol(name, "options.callers-slice-written", "", map[string]any{})
+				}
 				c.Eval(gen.HashString(fkey+name+strconv.Itoa(bi)+root.Name+strconv.Itoa(off)), nontrivial)
 				c.SetAdd("entries", name)
 				c05Judge(viol, name, rec.Rows, wantR, linesR, o, bi)
@@ -271,10 +275,11 @@ func evalC05(c *Ctx, cs *Case) {
 			for ai, name := range []string{"WalkIterFromRoot", "WalkIterProgrammably(alias)"} {
 				irec := NewRowRec()
 				g := BuildRoot(root)
+				gbo, optsIntact := GuardOpts(bo)
 				o := Guard(func() error {
-					seq := gtree.WalkIterFromRoot(g, bo...)
+					seq := gtree.WalkIterFromRoot(g, gbo...)
 					if ai == 1 {
-						seq = gtree.WalkIterProgrammably(g, bo...)
+						seq = gtree.WalkIterProgrammably(g, gbo...)
 					}
 					for wn, err := range seq {
 						if err != nil {
@@ -285,6 +290,10 @@ func evalC05(c *Ctx, cs *Case) {
 					return nil
 				})
 				irec.Seal(&o)
+				if !optsIntact() {
+					viol(name, "options.callers-slice-written", "", map[string]any{"note": "the options were passed as a prefix of a longer slice (opts[:n]...); after the call the elements beyond n are no longer the caller's"})
+				}
+				c.Count("calls_with_options_from_a_longer_slice", 1)
 				rows := irec.Rows
 				c.Eval(gen.HashString(fkey+name+strconv.Itoa(bi)+root.Name+strconv.Itoa(off)), nontrivial)
 				c.SetAdd("entries", name)
